@@ -1,8 +1,8 @@
 SPECIFICATION Spec
 CONSTANTS
   Apps = {"a1"}
-  AppOrder <- cAppOrder
-  Sides = {"s1", "s2", "s3"}
+  AppOrder <- cAppOrder1
+  Sides = {"s1","s2","s3"}
   Conns = {"c1", "c2"}
   Class1 = {"1"}
   Class2 = {"10"}
@@ -10,7 +10,7 @@ CONSTANTS
   LongNames = {"1000"}
   OtherNames = {}
   ClientMbox = {"m1"}
-  GenMbox <- cGen
+  GenMbox <- cGen2
   EXP = 11
   PERIOD = 5
   AllowList = TRUE
@@ -18,14 +18,15 @@ CONSTANTS
   Blur = 0
   Welcome = "w0"
   MsgIds = {"~"}
-  AddMsgs <- cAddMsgs
+  AddMsgs <- cAdd1
   MoodSet = {"~"}
   CVs = {"~"}
   Malformed = FALSE
   AdvanceSteps = {1}
   MaxTime = 0
-  MaxMsgs = 2
+  MaxMsgs = 1
   MaxUsage = 0
+  MaxDepth = 9
   WithStop = FALSE
   WithCrash = FALSE
   WithCrashIn = FALSE
@@ -33,6 +34,15 @@ CONSTANTS
   WithTime = FALSE
 CONSTRAINT Constr
 VIEW View
-INVARIANT GhostAgrees
-PROPERTY P01 P02 P03 P04 P05 P06frame P07 P08 P09 P10
 CHECK_DEADLOCK FALSE
+INVARIANT GhostAgrees
+PROPERTY P01
+PROPERTY P02
+PROPERTY P03
+PROPERTY P05
+PROPERTY P07
+PROPERTY P08
+PROPERTY P09
+PROPERTY P10
+PROPERTY P17
+PROPERTY P18
